@@ -260,12 +260,17 @@ def run(ctx):
   items = [(n, h) for n in ROOTS for h in HOWS] + [('extra:' + n, h) for n, _ in extra_values() for h in HOWS]
   ctx.pmap(fidelity_item, items)
   ctx.states += len(items)
-  depth = 3 if ctx.thorough else 2
-  roots = ROOTS if ctx.thorough else ('list', 'obj', 'tdict', 'withleaf', 'withref')
-  hows = HOWS if ctx.thorough else ('clone_deep', 'clone_shallow')
-  vals = (0, 'sd', 'pl', 'MISSING') if ctx.thorough else (0, 'sd', 'MISSING')
-  sp = CloneSpace([(n, h) for n in roots for h in hows], vals)
-  statespace.explore(ctx, sp, max_depth=depth, max_states=300000)
+  small = ('list', 'obj', 'tdict', 'withleaf', 'withref')
+  if ctx.thorough:
+    plans = [(ROOTS, HOWS, (0, 'sd', 'pl', 'MISSING'), 2, 300000),
+             (small, ('clone_deep', 'clone_shallow'), (0, 'sd', 'MISSING'), 3, 40000)]
+  else:
+    plans = [(small, ('clone_deep', 'clone_shallow'), (0, 'sd', 'MISSING'), 2, 300000)]
+  depth = []
+  for roots, hows, vals, dep, cap in plans:
+    sp = CloneSpace([(n, h) for n in roots for h in hows], vals)
+    n = statespace.explore(ctx, sp, max_depth=dep, max_states=cap)
+    depth.append(dict(roots=list(roots), methods=list(hows), values=[str(v) for v in vals], depth=dep, states=n))
   ctx.capped[:] = [c for c in ctx.capped if 'history depth bound' not in c]
   ctx.note('history_depth', depth)
   ctx.sample(dict(root='withleaf', how='clone_shallow', hist=[['', 'set', 1, ['n', 1], 'z', 0]]))
